@@ -19,7 +19,7 @@ from ..security.pyopenssl_tls import (
     x509_to_cryptography,
 )
 from ..utils.logging import get_logger
-from .protocol import GeminiServerProtocol
+from .protocol import REQUEST_TIMEOUT, GeminiServerProtocol
 
 logger = get_logger(__name__)
 
@@ -71,6 +71,9 @@ class TLSServerProtocol(asyncio.Protocol):
         # Peer address for logging
         self._peer_name: tuple[str, int] | None = None
 
+        # Timer that drops peers which never complete the TLS handshake
+        self._handshake_timer: asyncio.TimerHandle | None = None
+
     def connection_made(self, transport: asyncio.BaseTransport) -> None:
         """Initialize TLS connection when TCP connection is established.
 
@@ -83,6 +86,16 @@ class TLSServerProtocol(asyncio.Protocol):
         # Create PyOpenSSL connection in server mode with memory BIO
         self.tls_conn = SSL.Connection(self.ssl_context, None)
         self.tls_conn.set_accept_state()
+
+        # The inner protocol's request timer only starts after the handshake;
+        # until then this timer bounds how long a silent peer is kept.
+        try:
+            loop = asyncio.get_running_loop()
+            self._handshake_timer = loop.call_later(
+                REQUEST_TIMEOUT, self._handle_handshake_timeout
+            )
+        except RuntimeError:
+            self._handshake_timer = None
 
         logger.debug(
             "tls_connection_started",
@@ -119,6 +132,7 @@ class TLSServerProtocol(asyncio.Protocol):
         try:
             self.tls_conn.do_handshake()
             self.handshake_complete = True
+            self._cancel_handshake_timer()
 
             logger.debug(
                 "tls_handshake_complete",
@@ -221,6 +235,18 @@ class TLSServerProtocol(asyncio.Protocol):
         except SSL.Error:
             pass
 
+    def _cancel_handshake_timer(self) -> None:
+        """Cancel the handshake timer if it is still pending."""
+        if self._handshake_timer:
+            self._handshake_timer.cancel()
+            self._handshake_timer = None
+
+    def _handle_handshake_timeout(self) -> None:
+        """Drop a peer that did not complete the TLS handshake in time."""
+        self._handshake_timer = None
+        if not self.handshake_complete:
+            self._close_with_error("Handshake timeout")
+
     def _close_with_error(self, message: str) -> None:
         """Close connection due to error.
 
@@ -248,6 +274,7 @@ class TLSServerProtocol(asyncio.Protocol):
         Args:
             exc: Exception if connection closed due to error, None for clean close.
         """
+        self._cancel_handshake_timer()
         if self.inner_protocol:
             self.inner_protocol.connection_lost(exc)
 
